@@ -28,7 +28,15 @@ impl TerminationModelBuilder {
                     )
                 })?;
                 let dur = dur_val.as_duration()?;
-                let freq = config.get_config_i64(&"frequency", &local_scope)? as u64;
+                let freq_i64 = config.get_config_i64(&"frequency", &local_scope)?;
+                if freq_i64 < 1 {
+                    // the runtime is tested when iteration % frequency == 0
+                    return Err(CompassConfigurationError::UserConfigurationError(format!(
+                        "termination model frequency must be a positive integer, found {}",
+                        freq_i64
+                    )));
+                }
+                let freq = freq_i64 as u64;
                 Ok(T::QueryRuntimeLimit {
                     limit: dur,
                     frequency: freq,
